@@ -8,13 +8,68 @@ class Check(PropertyCheck):
     model_imports = ["gen.GenStatus", "model.Status"]
     run_expr = "(fun '(tag, code) => [Z.of_N (normalise (fam_of_tag tag) code)])"
     rule = ("all 256 codes of EzspStatus and of EmberStatus (exhaustive), every defined sl_Status member, "
-            "and pseudo-random undefined 32-bit unified values; a case is non-trivial when the input is not "
+            "pseudo-random undefined 32-bit unified values, and the call sites: every per-version wrapper that hands a status to the application x every version x status codes; a case is non-trivial when the input is not "
             "the family's success code; distinct by (family, code)")
     assumptions = ["zigpy enum classes construct a pseudo-member for an undefined code (exercised, not verified)"]
+
+    # the per-version wrappers that hand a status to the application: they must convert what the NCP answered
+    WRAPPERS = ["initialize_network", "send_unicast", "send_multicast", "send_broadcast", "set_source_route", "add_transient_link_key"]
+
+    def setup(self):
+        import stack
+        self.stack = stack
+        self.loop = stack.new_loop()
+        self.ez = {}
+
+    def teardown(self):
+        self.loop.close()
+
+    def _wrapper(self, v, name, code):
+        """call the wrapper of protocol version v on a command layer that answers every command with status `code` of the
+        version's status family (unified from v14 for the send commands, stack status before); returns the status the
+        wrapper hands on"""
+        import asyncio
+        import bellows.types as t
+        import ezsptypes as et
+        import random
+        if v not in self.ez:
+            self.ez[v] = self.stack.make_ezsp(v)
+        proto = self.ez[v]._protocol
+        rng = random.Random(1)
+        seen = {}
+
+        async def command(cname, *args, **kwargs):
+            rx = proto.COMMANDS[cname][2]
+            tys = list(rx.values())
+            vals = [et.gen_value(ty, rng, "lo") for ty in tys]
+            vals[0] = tys[0](code)
+            seen["family"] = 2 if issubclass(tys[0], t.sl_Status) else 1 if issubclass(tys[0], t.EmberStatus) else 0
+            return vals
+        saved = proto.command
+        proto.command = command
+        aps = t.EmberApsFrame(profileId=0x104, clusterId=6, sourceEndpoint=1, destinationEndpoint=1, options=0, groupId=0, sequence=1)
+        args = {"initialize_network": (), "send_unicast": (t.NWK(0x1234), aps, t.uint8_t(1), b"x"),
+                "send_multicast": (aps, t.uint8_t(0), t.uint8_t(3), t.uint8_t(1), b"x"),
+                "send_broadcast": (t.BroadcastAddress.ALL_ROUTERS_AND_COORDINATOR, aps, t.uint8_t(0), t.uint8_t(1), t.uint8_t(1), b"x"),
+                "set_source_route": (t.NWK(0x1234), [t.NWK(0x2222)]),
+                "add_transient_link_key": (t.EUI64.convert("00:11:22:33:44:55:66:77"), t.KeyData(bytes(16)))}[name]
+        asyncio.set_event_loop(self.loop)
+        try:
+            r = self.loop.run_until_complete(getattr(proto, name)(*args))
+        finally:
+            proto.command = saved
+        r = r[0] if isinstance(r, tuple) else r
+        return r, seen.get("family")
 
     def build_cases(self, tier, rng):
         import bellows.types as t
         cases = [(0, c) for c in range(256)] + [(1, c) for c in range(256)]
+        # call sites: every wrapper x every version x the steering codes, success, an unmapped and an undefined code
+        codes = [0x00, 0x72, 0xA1, 0x18, 0x93, 0x03, 0xB6, 0xB1, 0x90, 0x91, 0x70, 0x77, 0xEE, 0xFF]
+        for v in range(4, 15):
+            for name in self.WRAPPERS:
+                for c in (codes if tier == "quick" else range(256)):
+                    cases.append((1, c, v, name))
         cases += [(2, int(m)) for m in t.sl_Status]
         n = 1000 if tier == "quick" else 20000
         cases += [(2, rng.randrange(1 << 32)) for _ in range(n)]
@@ -22,6 +77,16 @@ class Check(PropertyCheck):
 
     def run_impl(self, case):
         import bellows.types as t
+        if len(case) == 4:
+            _, code, v, name = case
+            try:
+                r, fam = self._wrapper(v, name, code)
+                if fam is None:
+                    return {"result": int(r), "is_sl": isinstance(r, t.sl_Status), "no_command": True}   # v4 add_transient_link_key: no NCP command
+                case_fam = fam
+                return {"result": int(r), "is_sl": isinstance(r, t.sl_Status), "family": case_fam}
+            except BaseException as e:  # noqa
+                return {"raised": repr(e)}
         tag, code = case
         cls = (t.EzspStatus, t.EmberStatus, t.sl_Status)[tag]
         try:
@@ -31,12 +96,33 @@ class Check(PropertyCheck):
             return {"raised": repr(e)}
 
     def model_input(self, case):
+        if len(case) == 4:
+            return None       # judged by the predicate below against the conversion the function-level cases establish
         return f"({case[0]}, {case[1]})"
 
     def obs_to_z(self, case, obs):
         return [obs["result"]] if "result" in obs else [-1]
 
     def monitor(self, case, obs):
+        if len(case) == 4:
+            _, code, v, name = case
+            if "raised" in obs:
+                return f"v{v}.{name}: raised {obs['raised']} when the NCP answered status {code:#04x}"
+            if not obs["is_sl"]:
+                return f"v{v}.{name}: does not return a unified status"
+            if obs.get("no_command"):
+                return None
+            import bellows.types as t
+            fam = obs["family"]
+            want = code if fam == 2 else int(t.sl_Status.from_ember_status((t.EmberStatus if fam == 1 else t.EzspStatus)(code)))
+            steering = {0x72: 0x0C03, 0xA1: 0x0C03, 0x18: 0x0019, 0x93: 0x0017, 0x03: 0x002D, 0xB6: 0x002D, 0xB1: 0x0027,
+                        0x90: 0x0015, 0x91: 0x0016, 0x00: 0x0000}
+            if fam == 1 and code in steering:
+                want = steering[code]
+            if obs["result"] != want:
+                return (f"v{v}.{name}: the NCP answered status {code:#04x} (family {fam}) and the wrapper handed on {obs['result']:#06x}; "
+                        f"the conversion gives {want:#06x}")
+            return None
         tag, code = case
         if "raised" in obs:
             return f"conversion raised {obs['raised']}"
@@ -60,7 +146,7 @@ class Check(PropertyCheck):
         return case[1] != 0
 
     def signature(self, case, obs, why):
-        return f"status:{case[0]}:{case[1]}"
+        return f"status:{case[0]}:{case[1]}" + (f":v{case[2]}.{case[3]}" if len(case) == 4 else "")
 
     def extra_checks(self, rep, tier, rng):
         rep.cov["exhaustive"] = True
